@@ -395,7 +395,10 @@ def build_hand(case):
     for g in case.get('groups', []):
         kind = g[0]
         if kind == 'single':
-            F.new_variable(label=g[1])
+            if g[1] is None:
+                F.new_variable()              # a variable of its own without a name
+            else:
+                F.new_variable(label=g[1])
         elif kind == 'block':
             F.new_block(*g[1], label=g[2])
         elif kind == 'anon':
@@ -431,6 +434,34 @@ def run_hand(case):
         early = buf.getvalue()
     labels = []
     nontrivial = shape_labels(F, labels)
+    # names the harness knows without asking: a variable that was never given a name is x_<id> in LaTeX and x<id> elsewhere,
+    # however it came into being (declared count raised, mentioned by a row, new_variable() without a label); a named single
+    # variable carries its label
+    vid, known = 0, {}
+    for g in case.get('groups', []):
+        if g[0] == 'single':
+            vid += 1
+            known[vid] = g[1]
+            if g[1] is None:
+                labels.append('unnamed-single-variable')
+        elif g[0] == 'anon':
+            for _ in range(g[1]):
+                vid += 1
+                known[vid] = None
+        else:
+            k = 1
+            for dd in g[1]:
+                k *= dd
+            vid += k
+    for v in range(vid + 1, F.number_of_variables() + 1):
+        known[v] = None
+    for fmt in ('x_{}', 'x{}'):
+        got = list(F.all_variable_labels(default_label_format=fmt)) if fmt != 'x{}' else list(F.all_variable_labels())
+        for v, nm in sorted(known.items()):
+            want = fmt.format(v) if nm is None else nm
+            if v <= len(got) and str(got[v - 1]) != want:
+                raise Violation("variable {} {} but is listed as {!r} where {!r} is its name under the default format {!r}; groups {}".format(
+                    v, 'was never given a name' if nm is None else 'was named {!r}'.format(nm), got[v - 1], want, fmt, case.get('groups')))
     if first == 'to_latex':
         check_latex(early, F, 'to_latex() as the first thing asked of the object', document=False)
     elif first == 'latex-file':
@@ -440,6 +471,9 @@ def run_hand(case):
                   export_header=False, export_varnames=True)
     if first:
         labels.append('first-observation:' + first)
+    rws = case.get('rows', [])
+    if any(at < len(rws) and (rws[at] == [] or rws[at] == ['clause', []]) for at in (35, 70)):
+        labels.append('empty-clause-opens-a-page')
     if any(g[0] == 'block' and 0 in g[1] for g in case.get('groups', [])):
         labels.append('group-without-variables')
         gs = case['groups']
@@ -491,6 +525,7 @@ _BLOCK2 = ['p_{{{},{}}}', 'e({},{})', 'f({})={}', 'X[{},{}]', '(u({0}))_{{{1}}}'
 
 _group = st.one_of(
     st.tuples(st.just('single'), _single_label()).map(list),
+    st.just(['single', None]),
     st.tuples(st.just('block'), st.lists(st.integers(1, 3), min_size=1, max_size=1), st.sampled_from(_BLOCK1)).map(list),
     st.tuples(st.just('block'), st.lists(st.integers(1, 3), min_size=2, max_size=2), st.sampled_from(_BLOCK2)).map(list),
     st.tuples(st.just('anon'), st.integers(1, 3)).map(list),
@@ -556,6 +591,11 @@ def strat_hand(draw):
                         st.integers(-5, 30)).map(list)
         cl = st.tuples(st.just('clause'), st.lists(_lit(maxvar), max_size=4)).map(list)
         rows = _rows(draw, st.one_of(con, con, cl), n)
+    if len(rows) > 35 and draw(st.integers(0, 2)) == 0:
+        # the rows that open and close a page of the LaTeX document are special ones: the empty clause, a unit, the widest row
+        for at in (35, 70, 34, 69):
+            if at < len(rows) and draw(st.booleans()):
+                rows[at] = [] if cls == 'CNF' else ['clause', []]
     case = {'cls': cls, 'groups': groups, 'rows': rows,
             'eh': draw(st.booleans()), 'ev': draw(st.booleans()),
             'target': draw(strat_target(cls))}
@@ -1195,8 +1235,8 @@ def strat_shield_all(draw):
 
 SUBCHECKS = [
     SubCheck('hand', run_hand, strategy=strat_hand, quick=1600, thorough=96000,
-             rule="CNF and OPB objects built by hand: 0-4 variable groups (named singletons, 1- and 2-index blocks with the label shapes of the families, blocks without variables, anonymous gaps; in half of the cases a rendering with names is the first thing ever asked of the object and is judged against what the object says afterwards), literals up to 2 past the declared range, 0..80 rows of width 0..4 (OPB: coefficients -12..12 \\ {0}, five input relations, degrees -5..30, clauses), extra header fields, description, export_header x export_varnames, one named target (path / file object / StringIO / stdout, 13 extensions, sub-directories called d.tex and d.opb, request None/opb/latex/dimacs); every case is rendered by to_opb(), to_latex(), to_file(opb), to_file(latex) and the named target, each read back by the independent readers and compared row by row with list(F) and all_variable_labels(); non-trivial: >=2 rows, >=1 row with a negative literal, and for the OPB class a coefficient >1 or an equality",
-             required_labels=['first-observation:to_latex', 'first-observation:latex-file', 'first-observation:opb-names', 'group-without-variables', 'named-group-after-empty-group', 'CNF', 'OPB', 'equality', 'coefficient>1', 'empty-constraint', 'empty-formula', 'page-split',
+             rule="CNF and OPB objects built by hand: 0-4 variable groups (named singletons, 1- and 2-index blocks with the label shapes of the families, blocks without variables, single variables created without a name, anonymous gaps; in half of the cases a rendering with names is the first thing ever asked of the object and is judged against what the object says afterwards), literals up to 2 past the declared range, 0..80 rows of width 0..4 (OPB: coefficients -12..12 \\ {0}, five input relations, degrees -5..30, clauses), extra header fields, description, export_header x export_varnames, one named target (path / file object / StringIO / stdout, 13 extensions, sub-directories called d.tex and d.opb, request None/opb/latex/dimacs); every case is rendered by to_opb(), to_latex(), to_file(opb), to_file(latex) and the named target, each read back by the independent readers and compared row by row with list(F) and all_variable_labels(); non-trivial: >=2 rows, >=1 row with a negative literal, and for the OPB class a coefficient >1 or an equality",
+             required_labels=['empty-clause-opens-a-page', 'unnamed-single-variable', 'first-observation:to_latex', 'first-observation:latex-file', 'first-observation:opb-names', 'group-without-variables', 'named-group-after-empty-group', 'CNF', 'OPB', 'equality', 'coefficient>1', 'empty-constraint', 'empty-formula', 'page-split',
                               'two-page-splits', 'full-last-page', 'varnames', 'by-extension', 'request-beats-extension',
                               'default-dimacs', 'equality-with-negative-literal', 'negative-degree', 'no-header', 'header',
                               'name-with-sub/superscript', 'name-with-punctuation', 'target-path', 'target-fileobj',
